@@ -297,7 +297,7 @@ func TestC07(t *testing.T) {
 func TestC08(t *testing.T) {
 	p := &world.Profile{Name: "oldest", MinGroups: 1, MaxGroups: 1, Auto: 1, MaxAge: 1, MaxInit: 14, SmallGraces: true, Steps: 12, Stale: true, MaxBelowASG: 1,
 		FaultFocus: "node-writes",
-		Weights:    map[string]int{"scan": 10, "targetUtil": 8, "fault": 3, "launch": 2, "taintExt": 1, "cordon": 1, "advance": 1, "removeTaint": 2, "setCreated": 3, "annotate": 2, "dupNode": 1, "notReady": 4, "terminating": 2, "heartbeat": 5, "foreignTaint": 4}}
+		Weights:    map[string]int{"scan": 10, "targetUtil": 8, "fault": 3, "launch": 2, "taintExt": 1, "cordon": 1, "advance": 1, "removeTaint": 2, "setCreated": 3, "annotate": 2, "dupNode": 1, "notReady": 4, "terminating": 2, "heartbeat": 5, "foreignTaint": 4, "replacedAfterRefusedWrites": 2}}
 	col := newCollector(t, "C08", "history check; scale-down scans; non-trivial = 0 < tainted < untainted with >= 2 distinct creation times and a view order that is not already oldest-first; also ties and failed writes; distinct by (k, U, distinct times, sorted, ties, failed, stale)")
 	historyCheck(t, &historyOpts{prop: "C08", profile: p, col: col, classify: func(w *world.World, rec *world.ScanRecord) []string {
 		var keys []string
@@ -386,7 +386,7 @@ func TestC09(t *testing.T) {
 
 func TestC10(t *testing.T) {
 	p := &world.Profile{Name: "annot", Linger: true, FaultFocus: "node-writes", BulkWhat: []string{"taint+annotate+drain", "taint+annotate", "annotate", "taint+drain"}, MinGroups: 1, MaxGroups: 2, Fleet: 0, Auto: 1, MaxInit: 8, SmallGraces: true, Steps: 30, Stale: true,
-		Weights: with(baseWeights(), "annotate", 8, "taintExt", 6, "advance", 9, "clearNode", 3, "cordon", 1, "asgEdit", 2, "asgDesired", 2, "staleWindow", 2, "fault", 3, "leftoverNode", 2, "dueProtected", 3, "raceOnWrite", 3)}
+		Weights: with(baseWeights(), "annotate", 8, "taintExt", 6, "advance", 9, "clearNode", 3, "cordon", 1, "asgEdit", 2, "asgDesired", 2, "staleWindow", 2, "fault", 3, "leftoverNode", 2, "dueProtected", 3, "raceOnWrite", 3, "annotatedWhileDraining", 3)}
 	col := newCollector(t, "C10", "history check; non-trivial = a reaping scan that sees an annotated node satisfying the removal condition, with or without other removable nodes; distinct by (temptation, value class, others removed, empty)")
 	historyCheck(t, &historyOpts{prop: "C10", profile: p, col: col, classify: func(w *world.World, rec *world.ScanRecord) []string {
 		var keys []string
